@@ -189,13 +189,18 @@ def main():
     from pyvc.state import Goal as _Goal
     by_contract = {}
     for g in goals:
+        path = g.name.rsplit("@", 1)[-1]
         if g.kind == "post" and ":post:" in g.name:
-            path = g.name.rsplit("@", 1)[-1]
             by_contract.setdefault(g.func, {}).setdefault(path, g)
+        elif ":preserved:" in g.name:
+            # the arbitrary iteration of a loop cut by an invariant must be reachable too
+            loop = g.name.split(":preserved:")[0]
+            by_contract.setdefault(loop + " (loop body)", {}).setdefault(path, g)
     probes = []
     for fk, paths in by_contract.items():
         for path, g in list(paths.items())[:6]:
             pg = _Goal("reach:%s@%s" % (fk, path), g.hyps, z3.BoolVal(False), "reach", fk)
+            pg.func = fk
             probes.append(pg)
     if probes:
         smt.discharge(probes, timeout_s=3, stages=("z3-abs",))
